@@ -359,7 +359,8 @@ def check(ctx):
             v = bb.get(pname)
             if v is None:
                 continue
-            if any(a is ref_traj for a in tm.strip_ite(v)):
+            if any(a is ref_traj or _may_iterate(a, ref_traj)
+                   for a in tm.strip_ite(v)):
                 touched.append((e, tgt.qualname, pname))
     for (e, q, pname) in touched:
         ok = q in allowed
@@ -460,6 +461,39 @@ def check(ctx):
                   f"trajectory {fmt(traj)}"), key="C15.6:export")
 
 
+def _may_iterate(t: T, obj: T) -> bool:
+    """t is the element of an iteration whose iterable can hold `obj`
+    itself (a list literal / itertools.chain argument / conditional list)"""
+    if not isinstance(t, T):
+        return False
+    base = t
+    while base.op in ("sub", "attr") and base.op != "elem":
+        base = base.args[0]
+    if base.op != "elem":
+        return False
+
+    def holds(it: T, depth=0) -> bool:
+        if depth > 8:
+            return False
+        if it.op in ("list", "tuple"):
+            return any(x is obj or (x.op in ("tuple", "list") and any(
+                y is obj for y in x.args)) for x in it.args)
+        if it.op == "ite":
+            return holds(it.args[1], depth + 1) or holds(it.args[2],
+                                                         depth + 1)
+        if it.op == "named":
+            return holds(it.args[1], depth + 1)
+        if it.op == "call" and tm.callee_name(it) in (
+                "itertools.chain", "builtins.list", "builtins.tuple",
+                "builtins.reversed", "builtins.sorted"):
+            return any(holds(a, depth + 1) for a in it.args[1])
+        if it.op == "binop" and it.args[0] == "Add":
+            return holds(it.args[1], depth + 1) or holds(it.args[2],
+                                                         depth + 1)
+        return False
+    return holds(base.args[0])
+
+
 def _subjects(ctx, f, res, step_events, ref_traj):
     """C15.9: who each step is applied to. Down-sampling, motion filtering
     and projection act on *every* given trajectory and on the reference;
@@ -499,24 +533,26 @@ def _subjects(ctx, f, res, step_events, ref_traj):
             return "est"
         return "other"
 
-    def of(e: Event) -> str:
+    def subjects(t: Optional[T]) -> set:
+        out = set()
+        for a in (tm.strip_ite(t) if t is not None else []):
+            out.add(subject(a))
+            if _may_iterate(a, ref_traj):
+                out.add("ref")
+        return out or {"none"}
+
+    def of(e: Event) -> set:
         if e.kind == "augassign":
-            return subject(e.data["target"])
+            return subjects(e.data["target"])
         b = e.data.get("bound") or {}
         if "traj" in b:
-            return subject(b["traj"])
-        r = e.data.get("recv")
-        if r is not None:
-            alts = {subject(a) for a in tm.strip_ite(r)}
-            for k in ("est", "ref", "other"):
-                if k in alts:
-                    return k
-        return "none"
+            return subjects(b["traj"])
+        return subjects(e.data.get("recv"))
     need = {"downsample": {"est", "ref"}, "motion_filter": {"est", "ref"},
             "project": {"est", "ref"}, "t_offset": {"est"},
             "align": {"est"}, "align_origin": {"est"}, "transform": {"est"}}
     for name, want in need.items():
-        got = {of(e) for e in step_events[name]}
+        got = set().union(*[of(e) for e in step_events[name]])
         ok = want <= got
         ctx.ob("C15.9", step_events[name][0], ok,
                f"`{name}` is applied to "
@@ -528,13 +564,51 @@ def _subjects(ctx, f, res, step_events, ref_traj):
                   if "est" in want - got else
                   "the reference is exported without this step"),
                key=f"C15.9:{name}:subjects", got=sorted(got))
+    # the association step *replaces* each trajectory by its synchronised
+    # copy (trajectories[name] = ...): later steps must iterate the
+    # collection as it is then, not a snapshot of its values taken earlier
+    assoc = step_events["associate"][0]
+    later = [x for x in res.env.values()] if False else None
+    post = []
+    for v in res.env.values():
+        if not isinstance(v, T):
+            continue
+        for x in v.walk():
+            if x.op == "loopout" and assoc.loops and \
+                    x.args[1] == assoc.loops[-1] and \
+                    any(z is trajs for z in x.walk()) and \
+                    not any(x is p_ for p_ in post):
+                post.append(x)
+    if post:
+        for name in ("transform", "project", "export"):
+            stale = []
+            for e in step_events[name]:
+                if e.idx < assoc.idx:
+                    continue
+                b = e.data.get("bound") or {}
+                t = b.get("traj") if "traj" in b else e.data.get("recv")
+                for a in (tm.strip_ite(t) if t is not None else []):
+                    if subject(a) != "est":
+                        continue
+                    if not any(any(z is p_ for z in a.walk())
+                               for p_ in post):
+                        stale.append(e)
+            ctx.ob("C15.9", stale[0] if stale else step_events[name][0],
+                   not stale,
+                   f"`{name}` iterates the trajectories as they are after "
+                   f"association" if not stale else
+                   f"`{name}` at {stale[0].where} iterates a collection "
+                   f"built from the trajectories *before* the association "
+                   f"step replaced them by their synchronised copies: with "
+                   f"--sync/--align the exported trajectories miss this step",
+                   key=f"C15.9:{name}:current-collection")
     kinds = {"tum": "write_tum_trajectory_file",
              "kitti": "write_kitti_poses_file",
              "bag": "write_bag_trajectory"}
     for k, fn in kinds.items():
         evs = [e for e in step_events["export"]
                if (e.data.get("name") or "").endswith(fn)]
-        got = {of(e) for e in evs}
+        got = set().union(*[of(e) for e in evs]) if evs else set()
         ok = {"est", "ref"} <= got
         ctx.ob("C15.9", evs[0] if evs else f, ok,
                f"export as {k}: every given trajectory and the reference "
